@@ -26,5 +26,5 @@ func regexpCalls(m dsl.Matcher) {
 // folds, sorts or de-duplicates reports has exact duplicates and same-text neighbours to
 // deal with.
 func lengthLookedAt(m dsl.Matcher) {
-	m.Match(`len($s) == 0`, `len($s)`).Report(`C: length of $s looked at`)
+	m.Match(`len($s) != 0`, `len($s)`).Report(`C: length of $s looked at`)
 }
